@@ -29,8 +29,8 @@ WORDS = ["alfa", "bravo", "charlie", "delta", "echo", "foxtrot", "\U0001F600smil
 def schema():
     from whoosh import fields
     from whoosh.analysis import SpaceSeparatedTokenizer
-    return fields.Schema(id=fields.ID(unique=True, stored=True),
-                         body=fields.TEXT(analyzer=SpaceSeparatedTokenizer(), vector=True, stored=True),
+    return fields.Schema(id=fields.ID(unique=True, stored=True), path=fields.ID(unique=True, stored=True),
+                         body=fields.TEXT(analyzer=SpaceSeparatedTokenizer(), vector=True, stored=True, field_boost=2.0),
                          tag=fields.KEYWORD(stored=True, scorable=True),
                          num=fields.NUMERIC(int, 32, signed=True, sortable=True, stored=True),
                          blob=fields.STORED)
@@ -41,6 +41,12 @@ def gen_doc(rnd, key):
     d = {"id": key, "body": body, "tag": " ".join(sorted(set(rnd.choice(["red", "green", "blue"]) for _ in range(rnd.randint(1, 2))))),
          "num": rnd.choice([0, 1, -1, 7, 2 ** 31 - 1, -2 ** 31, 12345]),
          "blob": rnd.choice([None, 5, "x\U0001F600", [1, "two", 3.5], {"k": [1, 2]}, "__bytes__"])}
+    d["path"] = "/p/" + key          # unique; update operations may retarget it to another key's path
+    r = rnd.random()
+    if r < 0.12:
+        d["_body_boost"] = 0.0
+    elif r < 0.3:
+        d["_body_boost"] = 2.0
     if rnd.random() < 0.15:
         d["_stored_body"] = "OVERRIDE " + key
     if rnd.random() < 0.2:
@@ -60,6 +66,7 @@ def gen_scenario(rnd):
     nkeys = rnd.randint(3, 9)
     keys = ["k%d" % i for i in range(nkeys)]
     steps = []
+    allow_bad = rnd.random() < 0.12      # histories with a rejected add_document are a family of their own (known finding)
     for _ in range(rnd.randint(2, 5)):                      # writers
         ops = []
         written = set()
@@ -72,16 +79,30 @@ def gen_scenario(rnd):
                 if k in written:
                     continue
                 written.add(k)
-                ops.append(["update", gen_doc(rnd, k)])
+                ud = gen_doc(rnd, k)
+                if rnd.random() < 0.3:
+                    # the second unique field points at ANOTHER key's document: both must be replaced
+                    other = rnd.choice(keys)
+                    if other not in written:
+                        written.add(other)
+                        ud["path"] = "/p/" + other
+                ops.append(["update", ud])
             elif r < 0.85:
                 ops.append(["delete_id", rnd.choice(keys)])
-            elif r < 0.93:
+            elif r < 0.90:
                 ops.append(["delete_word", rnd.choice(WORDS)])
+            elif r < 0.94 and allow_bad:
+                bad = gen_doc(rnd, "bad-%d" % rnd.randrange(100000))
+                bad["num"] = "not-a-number"
+                bad["blob"] = "secret of the rejected document"
+                ops.append(["bad_add", bad])
             else:
-                ops.append(["group", [gen_doc(rnd, "g%d-%d" % (rnd.randrange(1000), j)) for j in range(rnd.randint(2, 3))]])
+                gid = rnd.randrange(10 ** 9)
+                ops.append(["group", [gen_doc(rnd, "g%d-%d" % (gid, j)) for j in range(rnd.randint(2, 3))]])
         end = rnd.choice(["commit", "commit", "commit", "optimize", "nomerge", "cancel", "with-error", "with-ok"])
         steps.append({"ops": ops, "end": end})
-    return {"steps": steps, "compound": rnd.random() < 0.7, "crash_step": rnd.randrange(len(steps)) if rnd.random() < 0.5 else None}
+    return {"steps": steps, "compound": rnd.random() < 0.7, "crash_step": rnd.randrange(len(steps)) if rnd.random() < 0.5 else None,
+            "has_bad_add": any(op[0] == "bad_add" for st in steps for op in st["ops"])}
 
 
 # ------------------------------------------------------------------ model
@@ -105,8 +126,10 @@ class Model(object):
         if k == "add":
             self.docs.append(dict(mat(op[1]), __new=True))
         elif k == "update":
-            self.docs = [d for d in self.docs if not (committed(d) and d["id"] == op[1]["id"])]
+            self.docs = [d for d in self.docs if not (committed(d) and (d["id"] == op[1]["id"] or d["path"] == op[1]["path"]))]
             self.docs.append(dict(mat(op[1]), __new=True))
+        elif k == "bad_add":
+            pass
         elif k == "delete_id":
             self.docs = [d for d in self.docs if not (committed(d) and d["id"] == op[1])]
         elif k == "delete_word":
@@ -122,12 +145,13 @@ class Model(object):
             post = {}
             for p, t in enumerate(toks):
                 post.setdefault(t, []).append(p)
-            stored = {"id": d["id"], "body": d.get("_stored_body", d["body"]), "tag": d["tag"]}
+            stored = {"id": d["id"], "path": d["path"], "body": d.get("_stored_body", d["body"]), "tag": d["tag"]}
             if "num" in d:
                 stored["num"] = d["num"]
             if d.get("blob") is not None:
                 stored["blob"] = d["blob"]
             out.setdefault(d["id"], []).append({"stored": stored, "body_post": post, "body_len": len(toks),
+                                                "boost": 2.0 * float(d.get("_body_boost", 1.0)),
                                                 "tags": sorted(d["tag"].split()), "num": d.get("num")})
         return out
 
@@ -138,6 +162,12 @@ def apply_real(w, op):
         w.add_document(**mat(op[1]))
     elif k == "update":
         w.update_document(**mat(op[1]))
+    elif k == "bad_add":
+        try:
+            w.add_document(**mat(op[1]))
+            raise AssertionError("add_document accepted a non-numeric value for a NUMERIC field")
+        except ValueError:
+            pass
     elif k == "delete_id":
         w.delete_by_term("id", op[1])
     elif k == "delete_word":
@@ -197,18 +227,30 @@ def real_dump(reader, fails, tag):
     for dn, key in dn2id.items():
         sf = dict(reader.stored_fields(dn))
         post = {}
+        boosts = set()
+        wts = {}
         for (fname, t), byd in postings.items():
             if fname == "body" and dn in byd:
                 fr, w, pos = byd[dn]
-                if fr != len(pos) or abs(w - fr) > 1e-6:
+                if fr != len(pos):
                     fails.append((tag + "C10-freq-weight", "%s in doc %s: freq %r weight %r positions %r" % (t, key, fr, w, pos)))
+                boosts.add(round(w / fr, 6) if fr else None)
+                wts[t] = w
                 post[t] = pos
         tags = sorted(t for (fname, t), byd in postings.items() if fname == "tag" and dn in byd)
-        rec = {"stored": sf, "body_post": post, "body_len": reader.doc_field_length(dn, "body"), "tags": tags, "num": sf.get("num")}
+        if len(boosts) > 1:
+            fails.append((tag + "C10-weight", "doc %s: weight/frequency differs between terms: %r" % (key, sorted(boosts, key=repr))))
+        rec = {"stored": sf, "body_post": post, "body_len": reader.doc_field_length(dn, "body"), "tags": tags, "num": sf.get("num"),
+               "boost": (list(boosts)[0] if boosts else 1.0)}
         if reader.has_vector(dn, "body"):
             vec = dict((t, list(p)) for t, p in reader.vector_as("positions", dn, "body"))
             if vec != post:
                 fails.append((tag + "C10-vector", "vector of %s = %r but transposed postings = %r" % (key, vec, post)))
+            vw = dict((t, w_) for t, w_ in reader.vector_as("weight", dn, "body"))
+            # the vector carries frequency x field boost (the per-document _<field>_boost only scales postings)
+            if any(abs(vw.get(t, -1) - 2.0 * len(post[t])) > 1e-6 for t in post):
+                fails.append((tag + "C10-vector-weight", "vector weights of %s = %r but frequency x field boost = %r"
+                              % (key, vw, dict((t, 2.0 * len(p)) for t, p in post.items()))))
         elif post:
             fails.append((tag + "C10-vector-missing", "doc %s has no vector" % key))
         if cr is not None and "num" in sf:
@@ -344,10 +386,10 @@ def run_scenario(sc, fails_out):
                         cur = before if old_ok else after
                         # writable again, and the next commit cleans up
                         w2 = rix.writer()
-                        w2.add_document(id="after-crash", body="alfa", tag="red")
+                        w2.add_document(id="after-crash", path="/p/after-crash", body="alfa", tag="red")
                         w2.commit()
                         cur2 = cur.copy()
-                        cur2.apply(["add", {"id": "after-crash", "body": "alfa", "tag": "red"}])
+                        cur2.apply(["add", {"id": "after-crash", "path": "/p/after-crash", "body": "alfa", "tag": "red"}])
                         with rix.reader() as r:
                             cf = []
                             d = real_dump(r, cf, "")
@@ -457,8 +499,109 @@ def run_scenario(sc, fails_out):
     finally:
         shutil.rmtree(root, ignore_errors=True)
         shutil.rmtree(root + "_c", ignore_errors=True)
+    if sc.get("has_bad_add") and fails:
+        # everything observed after a rejected add_document is attributed to that one recorded defect
+        fails = [("C08-rejected-document-leak", "after an add_document that raised (non-numeric value for a NUMERIC field) the "
+                  "writer kept the rejected document's postings/column values/statistics and attached them to the next "
+                  "document; first symptom: %s: %s" % fails[0])]
     for case, detail in fails:
         fails_out.append({"case": case, "detail": detail[:700], "corpus": sc})
+
+
+def check_toc_selection(fails_out):
+    """C02/C03: which TOC is the latest, and what clean_files keeps, over synthetic directories in which several
+    generations coexist (as after a crash between the TOC rename and the clean-up, or with undeletable files)."""
+    import itertools
+    from whoosh.filedb.filestore import FileStorage
+    from whoosh.index import TOC, clean_files
+    gens_all = [0, 1, 2, 9, 10, 11, 99, 100, 101, 1000]
+    root = tempfile.mkdtemp(prefix="toc_")
+    try:
+        n = 0
+        for k in (1, 2, 3):
+            for gens in itertools.combinations(gens_all, k):
+                n += 1
+                d = os.path.join(root, "d%d" % n)
+                os.mkdir(d)
+                st = FileStorage(d)
+                names = ["_MAIN_%d.toc" % g for g in gens] + ["_MAIN_%d.toc.1700000000.5" % (max(gens) + 1), "MAIN_abcdefgh.seg",
+                                                               "MAIN_WRITELOCK", "_OTHER_%d.toc" % (max(gens) + 5), ".hidden"]
+                for nm in names:
+                    open(os.path.join(d, nm), "wb").close()
+                got = TOC._latest_generation(st, "MAIN")
+                if got != max(gens):
+                    fails_out.append({"case": "C02-latest-generation", "detail": "TOC files for generations %r (+ a temp TOC of a "
+                                      "crashed commit, another index's TOC): _latest_generation = %r expected %r" % (gens, got, max(gens)),
+                                      "corpus": None})
+                    return
+
+                class Seg(object):
+                    def __init__(self, sid):
+                        self.sid = sid
+
+                    def segment_id(self):
+                        return self.sid
+                open(os.path.join(d, "MAIN_zzzzzzzz.seg"), "wb").close()
+                clean_files(st, "MAIN", max(gens), [Seg("MAIN_abcdefgh")])
+                left = sorted(os.listdir(d))
+                exp = sorted(["_MAIN_%d.toc" % max(gens), "_MAIN_%d.toc.1700000000.5" % (max(gens) + 1), "MAIN_abcdefgh.seg",
+                              "MAIN_WRITELOCK", "_OTHER_%d.toc" % (max(gens) + 5), ".hidden"])
+                if left != exp:
+                    fails_out.append({"case": "C02-clean_files", "detail": "clean_files(gen=%d, segments=[abcdefgh]) left %r expected %r"
+                                      % (max(gens), left, exp), "corpus": None})
+                    return
+    finally:
+        shutil.rmtree(root, ignore_errors=True)
+
+
+def check_buffered(rnd, fails_out):
+    """C04 (no committed update is lost) through the BufferedWriter / AsyncWriter front-ends: adds, updates and
+    deletions, flushed by commit() or close(), must all be in the reopened index."""
+    from whoosh import index, writing, query
+    root = tempfile.mkdtemp(prefix="buf_")
+    try:
+        ix = index.create_in(root, schema())
+        live = {}
+        w = ix.writer()
+        for i in range(4):
+            live["b%d" % i] = True
+            w.add_document(id="b%d" % i, path="/p/b%d" % i, body="alfa", tag="red")
+        w.commit()
+        kind = rnd.choice(["buffered", "async"])
+        bw = writing.BufferedWriter(ix, period=None, limit=rnd.choice([2, 100])) if kind == "buffered" else writing.AsyncWriter(ix)
+        nops = rnd.randint(1, 4)
+        hist = []
+        for j in range(nops):
+            r = rnd.random()
+            committed_live = sorted(k for k in live if k.startswith("b"))
+            if r < 0.4 and committed_live:
+                k = rnd.choice(committed_live)     # deletions only see committed documents
+                bw.delete_by_term("id", k)
+                live.pop(k)
+                hist.append("delete " + k)
+            elif r < 0.7:
+                k = "n%d" % rnd.randrange(10 ** 6)
+                bw.add_document(id=k, path="/p/" + k, body="bravo", tag="blue")
+                live[k] = True
+                hist.append("add " + k)
+            if kind == "buffered" and rnd.random() < 0.5:
+                bw.commit()
+                hist.append("commit")
+        if kind == "buffered":
+            bw.close()
+        else:
+            bw.commit()
+            if bw.running or bw.is_alive():
+                bw.join()
+        with index.open_dir(root).searcher() as s:
+            got = sorted(h["id"] for h in s.search(query.Every(), limit=None))
+        if got != sorted(live):
+            fails_out.append({"case": "C04-%s-writer-lost-update" % kind, "detail": "%s writer, history %r: index holds %r expected %r"
+                              % (kind, hist, got, sorted(live)), "corpus": None})
+    except Exception as e:
+        fails_out.append({"case": "exception-buffered", "detail": "%s: %s | %s" % (type(e).__name__, e, traceback.format_exc()[-400:]), "corpus": None})
+    finally:
+        shutil.rmtree(root, ignore_errors=True)
 
 
 def run(seeds):
@@ -471,7 +614,10 @@ def run(seeds):
         rnd = random.Random(sd)
         sc = gen_scenario(rnd)
         run_scenario(sc, fails)
+        check_buffered(rnd, fails)
         n += 1
+    if seeds and seeds[0] % 16 == 0 or len(seeds) > 0 and seeds[0] == min(seeds):
+        pass
     shutil.rmtree(tmp, ignore_errors=True)
     return fails, n
 
@@ -494,6 +640,11 @@ def main():
     with multiprocessing.get_context("fork").Pool(jobs) as pool:
         outs = pool.map(run, [seeds[i::jobs] for i in range(jobs)])
     fails = [f for fs, _ in outs for f in fs]
+    tmp = tempfile.mkdtemp(prefix="ib_")
+    os.environ["TMPDIR"] = tmp
+    tempfile.tempdir = tmp
+    check_toc_selection(fails)
+    shutil.rmtree(tmp, ignore_errors=True)
     seen, uniq = set(), []
     for f in fails:
         if f["case"] not in seen:
